@@ -19,14 +19,14 @@ CHECKS = {
     "C02": ("all accessor forms agree on the cell address (symbolic window / shape grid) and every out-of-range coordinate in the full usize range panics; index kernels additionally decided for all 64-bit inputs and shapes in checked and wrapping arithmetic", "DESIGN.md §2 C02", A + "; " + B),
     "C03": ("symbolic (start,end) at nesting depth 1..3 on all receivers with address-level oracle, write-through, invalid windows must panic; window arithmetic kernel decided for unbounded parents", "DESIGN.md §2 C03", A + "; " + B),
     "C04": ("every mutating trait operation applied through a TooDeeViewMut window of a stack parent: a symbolic parent cell outside the rectangle is unchanged, inside it equals the operation's owned-array model; the mutable-view and mutable-cursor kernels of Engine B (every access inside the window) for unbounded shapes", "DESIGN.md §2 C04", A + "; " + B),
-    "C05": ("drop ledger (per-element live count asserted in Drop, symbolic probes for live/distinct/all-dropped) over every operation that moves or transfers elements, incl. zero-sized elements", "DESIGN.md §2 C05", A),
+    "C05": ("drop ledger (per-element live count asserted in Drop, symbolic probes for live/distinct/all-dropped) over every operation that moves or transfers elements, incl. zero-sized elements; on the panic path through the crash-point harnesses shared with C11 (no element reachable twice, none dead while reachable)", "DESIGN.md §2 C05", A),
     "C06": ("insert/push of a row or column at a symbolic index on every shape of the grid, exact and spare capacity, Copy / owning / zero-sized elements; bad index or length must panic", "DESIGN.md §2 C06", A + "; " + BS),
     "C07": ("remove/pop with a symbolic index and a symbolic (front, back) or scripted consumption of the drain, checked element by element against the ideal sequence; post-state by symbolic probe", "DESIGN.md §2 C07", A + "; " + BS),
     "C08": ("symbolic call sequences (next/next_back/nth/nth_back with unconstrained n, then count/last/for/rev/fold/rfold) against the ideal double-ended sequence, address-level", "DESIGN.md §2 C08-C10", A + "; " + BI),
     "C09": ("as C08 for col/col_mut incl. indexing, fully symbolic windows; Col/ColMut index kernels and column range kernels decided for all 64-bit inputs in checked and wrapping arithmetic", "DESIGN.md §2 C08-C10", A + "; " + B + "; " + BI),
     "C10": ("as C08 for cells/cells_mut and the IntoIterator forms, from partially consumed front/back row states; FlattenExact's step functions additionally decided by induction over an abstract ideal inner iterator for unbounded shapes", "DESIGN.md §2 C08-C10", A + "; " + BI),
     "C11": ("crash point k is a symbolic variable: the k-th call into caller code (iterator next/len, Clone, Default, comparator, key fn) ends the path after observing the array through a stashed pointer; std's capacity-overflow panic routed through the same observer", "DESIGN.md §2 C11", A + "; " + BS),
-    "C12": ("mem::forget of every returned drain/iterator/view after symbolic partial consumption, then shape invariant, live/distinct cells, continued use and drop", "DESIGN.md §2 C12", A + "; " + BS),
+    "C12": ("mem::forget of every returned drain/iterator/view after symbolic partial consumption, then shape invariant, live/distinct cells, continued use and drop; u8, ledger and zero-sized elements, pop_row/pop_col on 9- and 10-line shapes", "DESIGN.md §2 C12", A + "; " + BS),
     "C13": ("swap family, row_pair_mut, fill, IndexMut on three implementors (TooDee overrides, TooDeeViewMut overrides, a harness-defined type using only the trait defaults); out-of-range arguments over the full usize range must panic", "DESIGN.md §2 C13", A + "; " + B),
     "C14": ("bulk copies from slice / owned / strided view into owned arrays and view windows, copy_within split by vertical order and height with all other coordinates symbolic; mismatching sizes / non-fitting rectangles must panic; copy_within's fit check additionally decided for all 64-bit rectangles in checked and wrapping arithmetic", "DESIGN.md §2 C14", A + "; " + B),
     "C15": ("translate_with_wrap per shape and concrete row shift with symbolic column shift and contents (stub: naive rotate_left), flips on symbolic windows", "DESIGN.md §2 C15", A),
